@@ -343,6 +343,23 @@ def rule_b(ctx: Context, R: Reporter):
                 witness={"iterates": unparse(it), "consumer_subscripts": n_cons}, key="rank-space-vs-label-space",
             )
     R.floor("C14.b", "per-mode producer loops", n_prod, 1)
+    # per-cluster vectors derived from the labels must span the whole label range: bincount/unique counts have the
+    # length of the largest *occurring* label + 1 (or the number of occurring labels), not the number of clusters
+    for c in [base] + ctx.prog.subclasses(base):
+        for m in c.methods.values():
+            fl = flow_of(m.node)
+            rs = ExprResolver(m.node)
+            for x in calls_in(m.node):
+                nm = ctx.res.external_name(m, x) or ""
+                if nm == "numpy.bincount" and x.args:
+                    at = fl.node_containing(x)
+                    a0 = rs.resolve(x.args[0], at) if at is not None else x.args[0]
+                    if "assignments" in norm_text(a0) or "labels" in norm_text(a0):
+                        ml = call_arg(x, 2, "minlength")
+                        okm = ml is not None and ("n_clusters" in norm_text(rs.resolve(ml, at) if at is not None else ml) or "len(" in norm_text(ml))
+                        R.check("C14.b", f"{m.short}: a per-cluster count vector spans all clusters", okm, m, x,
+                                msg=f"{m.short}: `{unparse(x)[:60]}` has length max(label)+1, not n_clusters: when the highest-numbered cluster holds no active particle the vector is "
+                                    f"shorter than the per-cluster arrays it is combined with (shape error in a valid run)", key=f"bincount-minlength:{m.short}")
 
 
 # ------------------------------------------------------------------ C14.c
